@@ -52,6 +52,18 @@ def _strike(point, task):
         time.sleep(0.3)
 
 
+    if mode in ("kill_remote_helper_first", "kill_remote_helper_second"):
+        # the same on the OTHER host: the executors are the children of the scenario process (our grandparent)
+        mine = os.getppid()
+        main = int(open(f"/proc/{mine}/stat").read().rsplit(")", 1)[1].split()[1])
+        others = sorted(p for p in _children_of(main) if p != mine and "resource_tracker" not in _cmd(p))
+        if others:
+            helpers = sorted(_children_of(others[0]))[:2]
+            if len(helpers) == 2:
+                os.kill(helpers[0] if mode == "kill_remote_helper_first" else helpers[1], signal.SIGKILL)
+                time.sleep(0.3)
+
+
 def producer():
     _strike("before", "t1")
     yield ("p", 0)
